@@ -1,9 +1,12 @@
 import SupervisorModel.Lemmas.SupLemmas
+import SupervisorModel.Lemmas.AllFunc
 /-
   C13 — start/stop/signal RPC answers agree with what happened to the process.
   Per-process RPC layer (Model/ProcOps.lean: `_update` gate, state guards, spawn/stop/signal,
   answer) and the deferred answers of the daemon model (Model/Sup.lean: `onwait` callbacks polled by
-  the loop).  Group/all forms (`make_allfunc`) are covered by the monitor only.
+  the loop).  Group/all forms: the closure of `make_allfunc` (Model/AllFunc.lean, lemmas in Lemmas/AllFunc.lean), for
+  every process list, predicate, outcome of the single calls and schedule of callback completions -- second half of
+  this file.
 -/
 set_option linter.unusedSimpArgs false
 set_option linter.unusedVariables false
@@ -186,5 +189,265 @@ theorem deferred_stop_sound (p : Proc) (hi : Inv p) (c : Int) (h : stopWaitAnswe
 -- non-vacuity
 example : startWaitAnswer { state := .running } = some faultSUCCESS := by decide
 example : stopWaitAnswer { state := .stopping, pid := 5 } = none := by decide
+
+/-! ## The group and all forms: `make_allfunc`
+
+  `AllFunc.Env` is everything the closure meets: the process list (positions `0 … n-1`, group and process name of
+  each), for each position whether the predicate holds when tested (`eligible`), what `func` does when called (`imm`:
+  raises RPCError / returns a callback / returns a value) and what the k-th poll of its callback does (`polls i k`:
+  NOT_DONE_YET / raises RPCError / returns a value).  `AllFunc.run env n` is the closure's state and last answer after
+  the caller had `n` opportunities to invoke it under the deferred-response protocol (it is invoked again exactly while
+  it says NOT_DONE_YET).  All theorems are for every `env` -- hence every order and time of completion -- and every `n`.
+
+  `AllFunc.eligIds env` = the eligible positions in list order.  `AllFunc.Reports env i st txt` = "the single call for
+  position `i` reported status `st` with text `txt`": the RPCError `func` raised; SUCCESS/"OK" if `func` returned a
+  value; if it returned a callback, the RPCError raised by, or SUCCESS/"OK" for the value returned by, the first poll
+  that did not say NOT_DONE_YET.  `AllFunc.EntryFor env i e` = `e` carries the names of position `i` and `Reports`.
+-/
+
+open Sv.AllFunc (Entry Answer Ev eligIds Reports EntryFor callsOf testsOf pollsOf makeNamespec PSpec)
+
+/-- the model applies to the source as it is: every statement-level fact it was written against is extracted `true` --
+    the poll loop runs over a copy (`callbacks[:]`), a finished callback is taken out by `callbacks.remove(struct)`,
+    the tuple is unpacked in the order it was packed, `func` is called at one place, in the walk, with the namespec,
+    and entries are appended in the four branches walkErr / walkOk / pollErr / pollOk -/
+theorem group_structure_facts :
+    Sv.Gen.AllFunc.pollLoopOverCopy = true ∧ Sv.Gen.AllFunc.pollRemovesStruct = true ∧
+    Sv.Gen.AllFunc.structPackedAsUnpacked = true ∧ Sv.Gen.AllFunc.funcCalledOnlyInWalk = true ∧
+    Sv.Gen.AllFunc.pollListOps = ["callbacks.remove(struct)", "callbacks.remove(struct)"] ∧
+    AllFunc.structureOk = true := by decide
+
+/-- the model never declines: no invocation under the protocol answers `unmodelled` -/
+theorem group_model_applies (env : AllFunc.Env) (n : Nat) : (AllFunc.run env n).2 ≠ some .unmodelled := by
+  have h := AllFunc.run_inv env n
+  intro hu
+  simp only [AllFunc.RunInv, hu] at h
+  obtain ⟨_, ha, _⟩ := h
+  split at ha <;> simp at ha
+
+/-- **At every moment every eligible process is either still pending or has exactly one status entry, and that entry is
+    what its single call reported.**  After any number of invocations the recorded entries can be labelled with list
+    positions such that the pending positions followed by the labels are a permutation of the eligible positions (so:
+    none missing, none twice, none for an ineligible process, none both pending and recorded), each entry carries the
+    group and process name of its position, and its status and description are those the single call for that position
+    reported (`Reports`).  This is the invariant from which the statements about the final answer follow; it holds
+    while the call is still answering NOT_DONE_YET, so nothing already recorded is duplicated by further polls. -/
+theorem group_conservation (env : AllFunc.Env) (n : Nat) (hn : 0 < n) :
+    ∃ lab : List (Nat × Entry),
+      (AllFunc.run env n).1.results = lab.map Prod.snd ∧
+      ((AllFunc.run env n).1.callbacks ++ lab.map Prod.fst).Perm (eligIds env) ∧
+      ∀ p, p ∈ lab → EntryFor env p.1 p.2 := by
+  have h := AllFunc.run_inv env n
+  cases ha : (AllFunc.run env n).2 with
+  | none =>
+    cases n with
+    | zero => exact absurd hn (Nat.lt_irrefl 0)
+    | succ n =>
+      exfalso
+      simp only [AllFunc.run, AllFunc.tick] at ha
+      split at ha <;> simp_all
+  | some a =>
+    simp only [AllFunc.RunInv, ha] at h
+    obtain ⟨⟨done, hinv⟩, _⟩ := h
+    exact ⟨done, hinv.res, hinv.perm, hinv.entries⟩
+
+/-- **The final answer has exactly one entry per eligible process, each equal to what the single call reported.**  When
+    the call answers with a result list `rs`, the entries of `rs` can be labelled with list positions such that the labels
+    are a permutation of the eligible positions -- exactly one entry for each eligible process, none for any other -- each
+    entry carries the group and process name of its position, and its status and description are what the single call
+    for that position reported: the code and text of the RPCError it raised (immediately or from its callback), SUCCESS
+    and "OK" when it returned a value -- for a deferred call, the outcome of the first poll that did not say
+    NOT_DONE_YET, never anything earlier.  Entries are in order of completion, which is why the statement is up to a
+    permutation. -/
+theorem group_entries_exact (env : AllFunc.Env) (n : Nat) (rs : List Entry)
+    (h : (AllFunc.run env n).2 = some (.results rs)) :
+    ∃ lab : List (Nat × Entry),
+      rs = lab.map Prod.snd ∧ (lab.map Prod.fst).Perm (eligIds env) ∧ ∀ p, p ∈ lab → EntryFor env p.1 p.2 := by
+  have hr := AllFunc.run_inv env n
+  simp only [AllFunc.RunInv, h] at hr
+  obtain ⟨⟨done, hinv⟩, ha, _⟩ := hr
+  have hemp : (AllFunc.run env n).1.callbacks = [] := by
+    cases hc : (AllFunc.run env n).1.callbacks.isEmpty
+    · simp [hc] at ha
+    · exact List.isEmpty_iff.1 hc
+  have hrs : rs = (AllFunc.run env n).1.results := by
+    simp only [hemp, List.isEmpty_nil, if_true] at ha
+    exact AllFunc.Answer.results.inj ha
+  refine ⟨done, by rw [hrs, hinv.res], ?_, hinv.entries⟩
+  have := hinv.perm
+  rw [hemp, List.nil_append] at this
+  exact this
+
+/-- **Exactly one entry per eligible process, as a statement about names**: the (group, name) pairs of the final
+    entries are a permutation of the (group, name) pairs of the eligible processes of the list -- duplicates in the
+    list, if any, counted as often as they occur. -/
+theorem group_one_entry_per_eligible (env : AllFunc.Env) (n : Nat) (rs : List Entry)
+    (h : (AllFunc.run env n).2 = some (.results rs)) :
+    (rs.map fun e => (e.group, e.name)).Perm ((eligIds env).map fun i => (env.group i, env.name i)) := by
+  obtain ⟨lab, hrs, hperm, hent⟩ := group_entries_exact env n rs h
+  have h1 : (rs.map fun e => (e.group, e.name)) = (lab.map Prod.fst).map fun i => (env.group i, env.name i) := by
+    rw [hrs, List.map_map, List.map_map]
+    apply List.map_congr_left
+    intro p hp
+    obtain ⟨hn, hg, _⟩ := hent p hp
+    simp [hn, hg]
+  rw [h1]
+  exact hperm.map _
+
+/-- the same for a process list given as a list: the names of the final entries are, up to order, the names of
+    `ps.filter (·.eligible)` -/
+theorem group_one_entry_per_eligible_list (ps : List PSpec) (n : Nat) (rs : List Entry)
+    (h : (AllFunc.run (AllFunc.Env.ofList ps) n).2 = some (.results rs)) :
+    (rs.map fun e => (e.group, e.name)).Perm ((ps.filter (·.eligible)).map fun p => (p.group, p.name)) := by
+  have := group_one_entry_per_eligible (AllFunc.Env.ofList ps) n rs h
+  rw [← AllFunc.eligIds_ofList_map ps (fun p => (p.group, p.name))]
+  exact this
+
+/-- consequences: as many entries as eligible processes; every entry belongs to an eligible process of the list; and
+    every eligible process has an entry -/
+theorem group_entries_count (env : AllFunc.Env) (n : Nat) (rs : List Entry)
+    (h : (AllFunc.run env n).2 = some (.results rs)) :
+    rs.length = (eligIds env).length ∧
+    (∀ e, e ∈ rs → ∃ i, i < env.n ∧ env.eligible i = true ∧ EntryFor env i e) ∧
+    (∀ i, i < env.n → env.eligible i = true → ∃ e, e ∈ rs ∧ EntryFor env i e) := by
+  obtain ⟨lab, hrs, hperm, hent⟩ := group_entries_exact env n rs h
+  refine ⟨?_, ?_, ?_⟩
+  · rw [hrs, List.length_map, ← hperm.length_eq, List.length_map]
+  · intro e he
+    rw [hrs] at he
+    obtain ⟨p, hp, hpe⟩ := List.mem_map.1 he
+    have hmem : p.1 ∈ eligIds env := hperm.mem_iff.1 (List.mem_map.2 ⟨p, hp, rfl⟩)
+    simp only [eligIds, List.mem_filter, List.mem_range] at hmem
+    exact ⟨p.1, hmem.1, hmem.2, hpe ▸ hent p hp⟩
+  · intro i hi he
+    have hmem : i ∈ eligIds env := by simp [eligIds, hi, he]
+    obtain ⟨p, hp, hpi⟩ := List.mem_map.1 (hperm.mem_iff.2 hmem)
+    exact ⟨p.2, by rw [hrs]; exact List.mem_map.2 ⟨p, hp, rfl⟩, hpi ▸ hent p hp⟩
+
+/-- **A deferred single call is reported by what its callback finally said, not earlier**: if the callback of an
+    eligible position says NOT_DONE_YET `k` times and then returns a value, the final answer's entry for that position has
+    status SUCCESS; if it then raises RPCError(c, t), the entry has status c and text t (`Reports` is single-valued). -/
+theorem group_deferred_status (env : AllFunc.Env) (i k : Nat) (hd : env.imm i = .deferred)
+    (hk : ∀ j, j < k → env.polls i j = .notDone) (e : Entry) (he : EntryFor env i e) :
+    (env.polls i k = .value → e.status = faultSUCCESS ∧ e.description = "OK") ∧
+    (∀ c t, env.polls i k = .raises c t → e.status = c ∧ e.description = t) := by
+  constructor
+  · intro hv
+    have hr : Reports env i faultSUCCESS "OK" := by
+      simp only [Reports, hd]; exact ⟨k, hk, Or.inr (by simp [hv])⟩
+    exact AllFunc.Reports.unique he.2.2 hr
+  · intro c t hv
+    have hr : Reports env i c t := by
+      simp only [Reports, hd]; exact ⟨k, hk, Or.inl hv⟩
+    exact AllFunc.Reports.unique he.2.2 hr
+
+/-- **While some callback is pending the answer is NOT_DONE_YET; the result list is handed out only when none is.**
+    After at least one invocation the last answer is NOT_DONE_YET exactly if the pending list is non-empty, and otherwise
+    it is the recorded result list. -/
+theorem group_answer_iff_pending (env : AllFunc.Env) (n : Nat) (a : Answer) (h : (AllFunc.run env n).2 = some a) :
+    (a = .notDoneYet ↔ (AllFunc.run env n).1.callbacks ≠ []) ∧
+    ((AllFunc.run env n).1.callbacks = [] → a = .results (AllFunc.run env n).1.results) := by
+  have hr := AllFunc.run_inv env n
+  simp only [AllFunc.RunInv, h] at hr
+  obtain ⟨_, ha, _⟩ := hr
+  cases hc : (AllFunc.run env n).1.callbacks with
+  | nil => simp [hc] at ha; simp [ha]
+  | cons x xs => simp [hc] at ha; simp [ha]
+
+/-- **Nothing already recorded is lost or reordered by a further invocation**: the result list after `n + 1`
+    opportunities extends the one after `n` (together with `group_conservation`: nor is anything recorded twice). -/
+theorem group_results_grow (env : AllFunc.Env) (n : Nat) :
+    (AllFunc.run env n).1.results <+: (AllFunc.run env (n + 1)).1.results := by
+  simp only [AllFunc.run, AllFunc.tick]
+  split
+  · obtain ⟨ex, hex⟩ := AllFunc.invoke_results env (AllFunc.run env n).1
+    exact ⟨ex, hex.symm⟩
+  · obtain ⟨ex, hex⟩ := AllFunc.invoke_results env (AllFunc.run env n).1
+    exact ⟨ex, hex.symm⟩
+  · exact List.prefix_refl _
+
+/-- **`func` is called exactly once for each eligible process and never for another, in list order, with the process's
+    namespec -- all in the first invocation**: after any positive number of invocations the calls of `func` recorded at the
+    seam are exactly the eligible positions in list order (no later invocation adds one), and the predicate has been
+    tested exactly once for every position of the list, in list order. -/
+theorem group_func_called_once (env : AllFunc.Env) (n : Nat) (hn : 0 < n) :
+    callsOf (AllFunc.run env n).1.log = (eligIds env).map (fun i => (i, makeNamespec (env.group i) (env.name i))) ∧
+    testsOf (AllFunc.run env n).1.log = List.range env.n := by
+  have h := AllFunc.run_inv env n
+  cases ha : (AllFunc.run env n).2 with
+  | none =>
+    cases n with
+    | zero => exact absurd hn (Nat.lt_irrefl 0)
+    | succ n =>
+      exfalso
+      simp only [AllFunc.run, AllFunc.tick] at ha
+      split at ha <;> simp_all
+  | some a =>
+    simp only [AllFunc.RunInv, ha] at h
+    exact ⟨h.2.2.1, h.2.2.2⟩
+
+/-- **Every later invocation polls each pending callback exactly once, in list order, and does nothing else at the
+    seam** -/
+theorem group_polls_once_per_invocation (env : AllFunc.Env) (n : Nat) (h : (AllFunc.run env n).2 = some .notDoneYet) :
+    (AllFunc.run env (n + 1)).1.log = (AllFunc.run env n).1.log ++ (AllFunc.run env n).1.callbacks.map Ev.poll := by
+  have hne : (AllFunc.run env n).1.callbacks.isEmpty = false := by
+    have := (group_answer_iff_pending env n _ h).1.1 rfl
+    cases hc : (AllFunc.run env n).1.callbacks with
+    | nil => exact absurd hc this
+    | cons x xs => rfl
+  simp only [AllFunc.run, AllFunc.tick, h]
+  exact AllFunc.invoke_next_log env _ hne
+
+/-- once the call has answered with a result list it is not invoked again: state and answer stay as they are -/
+theorem group_answer_final (env : AllFunc.Env) (n : Nat) (rs : List Entry) (h : (AllFunc.run env n).2 = some (.results rs)) :
+    AllFunc.run env (n + 1) = AllFunc.run env n := by
+  simp only [AllFunc.run, AllFunc.tick, h]
+
+/-- **Which predicate and which single-process call each public group / all method uses** (extracted from the six
+    methods): the start forms apply `startProcess` to the processes that are *not* starting, running or backing off,
+    the stop forms apply `stopProcess` to those that are, the signal forms apply `signalProcess` to the signallable
+    ones; each `group` form takes the processes of the named group, each `all` form those of `_getAllProcesses()`. -/
+theorem group_forms_callers :
+    Sv.Gen.AllFunc.callers =
+      [("startProcessGroup", "group", "isNotRunning", "startProcess", ["wait"]),
+       ("startAllProcesses", "all", "isNotRunning", "startProcess", ["wait"]),
+       ("stopProcessGroup", "group", "isRunning", "stopProcess", ["wait"]),
+       ("stopAllProcesses", "all", "isRunning", "stopProcess", ["wait"]),
+       ("signalProcessGroup", "group", "isSignallable", "signalProcess", ["signal"]),
+       ("signalAllProcesses", "all", "isSignallable", "signalProcess", ["signal"])] := by decide
+
+/-- **Eligible = the single call would not refuse for the state**: `isRunning` holds exactly in the states in which
+    `stopProcess` does not answer NOT_RUNNING (`stop_not_running_exact`), `isNotRunning` exactly in those in which
+    `startProcess` does not answer ALREADY_STARTED, `isSignallable` exactly in those in which `signalProcess` does not
+    answer NOT_RUNNING (`signal_not_running`) -/
+theorem group_predicates (st : PS) :
+    (Sv.Gen.AllFunc.isRunning_a0 st false = true ↔ st ∈ runningStates) ∧
+    (Sv.Gen.AllFunc.isNotRunning_a0 st (Sv.Gen.AllFunc.isRunning_a0 st false) = true ↔ st ∉ runningStates) ∧
+    ((if Sv.Gen.AllFunc.isSignallable_g0 st false then Sv.Gen.AllFunc.isSignallable_a0 st false else false) = true
+        ↔ st ∈ signallableStates) := by
+  cases st <;> decide
+
+-- non-vacuity: three eligible processes and one that is not; the second completes before the first (completion out of
+-- list order), the third faults while being polled; the answer comes with the third invocation
+def exEnv : AllFunc.Env :=
+  AllFunc.Env.ofList [
+    { group := "g", name := "a", eligible := true, imm := .deferred, polls := fun k => if k < 2 then .notDone else .value },
+    { group := "g", name := "b", eligible := true, imm := .deferred, polls := fun k => if k < 1 then .notDone else .value },
+    { group := "g", name := "x", eligible := false, imm := .value, polls := fun _ => .value },
+    { group := "h", name := "c", eligible := true, imm := .deferred, polls := fun _ => .raises 40 "ABNORMAL_TERMINATION" },
+    { group := "h", name := "h", eligible := true, imm := .raises 60 "ALREADY_STARTED", polls := fun _ => .value }]
+
+example : (AllFunc.run exEnv 1).2 = some .notDoneYet ∧ (AllFunc.run exEnv 2).2 = some .notDoneYet := by decide
+example : (AllFunc.run exEnv 3).2 = some (.results [
+    { name := "h", group := "h", status := 60, description := "ALREADY_STARTED" },
+    { name := "c", group := "h", status := 40, description := "ABNORMAL_TERMINATION" },
+    { name := "b", group := "g", status := 80, description := "OK" },
+    { name := "a", group := "g", status := 80, description := "OK" }]) := by decide
+example : (AllFunc.run exEnv 2).1.callbacks = [0] ∧ (AllFunc.run exEnv 1).1.callbacks = [0, 1] := by decide
+example : callsOf (AllFunc.run exEnv 3).1.log = [(0, "g:a"), (1, "g:b"), (3, "h:c"), (4, "h")] := by decide
+example : eligIds exEnv = [0, 1, 3, 4] := by decide
+-- nothing eligible: answered at once with the empty list
+example : (AllFunc.run (AllFunc.Env.ofList [{ group := "g", name := "a", eligible := false, imm := .value, polls := fun _ => .value }]) 1).2
+    = some (.results []) := by decide
 
 end Sv.Props.C13
